@@ -20,7 +20,7 @@ RULE = ("a case is (hash algorithm, secret p as text or bytes - empty, Unicode, 
         "dumps/loads in every format so the same challenges keep their outcome, and a plaintext written by hand into "
         "a document is hashed on load; non-trivial = non-empty p with >= 3 near misses judged; distinct = distinct "
         "case content")
-REQUIRED = ("sibling_text_lists_taken_over", "digest_values_made_with_a_chosen_salt", "chosen_salts_refused", "secrets_of_round_sizes", "secrets_of_whole_mebibytes", "secrets_shaped_like_references", "printed_forms_parsed_back", "byte_secrets_that_are_not_utf8", "digest_values_with_other_salt_length", "plaintext_in_included_file_hashed", "same_field_reassignments", "env_bound_unset_variable", "reset_default_checks", "bulk_list_salt_checks", "digests_recomputed", "fresh_salt_checks", "challenge_accepts_p", "challenge_rejects_q", "leak_scans_memory",
+REQUIRED = ("byte_string_secrets_given_as_default", "sibling_text_lists_taken_over", "digest_values_made_with_a_chosen_salt", "chosen_salts_refused", "secrets_of_round_sizes", "secrets_of_whole_mebibytes", "secrets_shaped_like_references", "printed_forms_parsed_back", "byte_secrets_that_are_not_utf8", "digest_values_with_other_salt_length", "plaintext_in_included_file_hashed", "same_field_reassignments", "env_bound_unset_variable", "reset_default_checks", "bulk_list_salt_checks", "digests_recomputed", "fresh_salt_checks", "challenge_accepts_p", "challenge_rejects_q", "leak_scans_memory",
             "leak_scans_documents", "roundtrips_digest_unchanged", "plaintext_in_document_hashed", "alg:md5", "alg:sha1",
             "alg:sha224", "alg:sha256", "alg:sha384", "alg:sha512")
 ASSUMPTIONS = ["hashlib is the reference implementation of the six algorithms", "documents are produced/decoded with the "
@@ -149,8 +149,8 @@ def run(case, ctx, res):
     item.pw = cc.ChallengeField(algname)
     item.n = cc.IntField(default=0)
     kw = {}
-    if place == "default-plain" and isinstance(p, str):
-        kw["default"] = p
+    if place == "default-plain":
+        kw["default"] = p  # text or bytes
     given = None
     if place in ("default-digest", "assigned-digest"):
         sl = case.get("salt_len")
@@ -181,7 +181,7 @@ def run(case, ctx, res):
 
     def build():
         cfg = schema()
-        if place == "root" or (place == "default-plain" and not isinstance(p, str)):
+        if place == "root":
             cfg.pw = p
         elif place == "assigned-digest":
             cfg.pw = given
@@ -229,6 +229,14 @@ def run(case, ctx, res):
         cfg1, cfg2 = build(), build()
     except UnicodeDecodeError:
         return
+    except TypeError as exc:
+        if place != "default-plain":
+            raise
+        res.viol("M-digest", "default-secret-refused:" + type(p).__name__, "a configuration whose challenge field declares the default "
+                 "secret %s cannot be built: %s" % (_short(p), exc))
+        return
+    if place == "default-plain" and not isinstance(p, str):
+        res.count("byte_string_secrets_given_as_default")
     v1, v2 = value_of(cfg1), value_of(cfg2)
     if not isinstance(v1, cc.DigestValue):
         res.viol("M-digest", "not-a-digest:" + feat, "challenge field holds %r after assigning the secret" % (v1,))
@@ -283,7 +291,7 @@ def run(case, ctx, res):
             return
         v1 = again
     # a reset of a plaintext default must hash again; repeated secrets in one bulk list operation get their own salts
-    if place == "default-plain" and isinstance(p, str):
+    if place == "default-plain":
         cc.reset_value(cfg1, "pw")
         res.count("reset_default_checks")
         r = cfg1.pw
